@@ -31,7 +31,7 @@ def units(tier):
     return registry.units() + bulkrp.units() + bulkiou.units() + bulkids.units() + walk.units() + (primitives.units(names=["UpdateNodeAttrsC"]) + primitives.units(SEGP, names=["UpdateNodeAttrsC"]) + segprims.annotator_units())
 
 
-def bounded(tier, seed):
+def _bounded(tier, seed):
     from pyvc.native_bridge import bounded_harness, bounded_walk
     return [bounded_harness(tier, "C10,C04,C05,C08,C09", "enable-disable-interleavings", "enable_features/disable_features of random subsets (incl. an unknown key) "
                             "interleaved with edits, undo, redo; oracles: registry = static + enabled, KeyError changes nothing, disabled features frozen, "
@@ -42,3 +42,8 @@ def bounded(tier, seed):
 def witness(label, failure, seed):
     from pyvc.native_bridge import tracks_witness
     return tracks_witness("C10", label, failure, seed)
+
+
+def bounded(tier, seed):
+    from ._common import model_checks
+    return _bounded(tier, seed) + model_checks(tier, "networkx,regionprops,compute_ious", shape=True, seed=seed)
